@@ -11,7 +11,7 @@ import faulthandler
 from concurrent.futures import ProcessPoolExecutor
 import multiprocessing
 
-RUN_WALL = int(os.environ.get('WSIM_RUN_WALL', '900'))   # one case may be a whole enumeration (C10/C16: up to ~80 runs); hangs inside a run are caught by the 60 s SIGALRM in the taps
+RUN_WALL = int(os.environ.get('WSIM_RUN_WALL', '3600'))   # one case may be a whole enumeration (C10/C16: up to ~80 runs); busy hangs inside a run are caught by the 60 s CPU-time cap in the taps, the wall limit is for a blocked child only
 
 
 def run_isolated(fn, arg, wall=RUN_WALL):
@@ -76,7 +76,7 @@ def _guard(fn, arg):
     except BaseException as e:  # noqa
         name = type(e).__name__
         if name == 'WsimTimeout':
-            return {'outcome': 'harness_timeout', 'error': 'SIGALRM wall cap inside run', 'tb': traceback.format_exc()[-2000:]}
+            return {'outcome': 'harness_timeout', 'error': 'CPU-time cap inside one run', 'tb': traceback.format_exc()[-2000:]}
         return {'outcome': 'harness_error', 'error': '%s: %s' % (name, e), 'tb': traceback.format_exc()[-3000:]}
 
 
